@@ -210,8 +210,12 @@ class _Quadrature(torch.autograd.Function):
         # reconstruct grad_params
         # listing tensor_params in the params of quad to make sure it gets
         # the gradient calculated
-        dydts = quad(new_fcn, xl, xu, params=(grad_ys, *tensor_params),
-                     bck_options=ctx.bck_config, **ctx.bck_config)
+        if len(tensor_params) > 0:
+            dydts = quad(new_fcn, xl, xu, params=(grad_ys, *tensor_params),
+                         bck_options=ctx.bck_config, **ctx.bck_config)
+        else:
+            # only the limits are differentiable: there is no parameter integral
+            dydts = []
         dydns = [None for _ in range(ctx.param_sep.nnontensors())]
         grad_params = ctx.param_sep.reconstruct_params(dydts, dydns)
 
